@@ -70,7 +70,7 @@ def run(tier, build, replay=None):
         day_jobs.append((idx, D))
     pre_impl = core.pool_map(_impl_full, pre_cases, init=core.impl_env_setup)
     pre_model = core.run_model([hist.line(10, hist.encode_hist(c)) for c in pre_cases])
-    nontriv, mism = set(), 0
+    nontriv, mism, suspects = set(), 0, []
     for p, (idx, T), pi, pm in zip(pre_cases, pre_src, pre_impl, pre_model):
         c, full = base["cases"][idx], base["impl"][idx]
         case_pair = {"case": c, "cut_instant": T}
@@ -99,6 +99,36 @@ def run(tier, build, replay=None):
         if not l2.same_outcome(l2.impl_fracs(pi), hist.decode_fracs(pm)):
             mism += 1
             out.violation("model and implementation disagree on a prefix history", p, tags={"correspondence"}, found_input=False)
+            suspects.append(idx)
+    # failing-input search: where model and implementation disagree, try EVERY cut instant of that history
+    # (prefix run vs full run restricted to events <= T), not only the randomly chosen one
+    if suspects and not any(v["found_input"] and v["tags"] and set(v["tags"]) & {"prefix-changed", "prefix-fails"} for v in out.violations):
+        for idx in suspects[:12]:
+            c, full = base["cases"][idx], base["impl"][idx]
+            if "ok" not in full:
+                continue
+            instants = sorted({r["ts"][0] for r in c["ins"] + c["outs"] + c["intras"]})[:-1]
+            cuts = [(T, cut_prefix(c, T)) for T in instants]
+            cuts = [(T, q) for T, q in cuts if q["ins"]]
+            res = core.pool_map(_impl_full, [q for _, q in cuts], init=core.impl_env_setup)
+            ev_us = {e["row"]: e["us"] for e in hist.taxable_oracle(c)}
+            hit = False
+            for (T, q), qi in zip(cuts, res):
+                pair = {"case": c, "cut_instant": T}
+                if "ok" not in qi:
+                    out.violation(f"history succeeds but its prefix up to instant {T} fails: {qi}", pair, tags={"prefix-fails"})
+                    hit = True
+                    break
+                a = [f for f in proj(full["ok"]["fractions"]) if ev_us.get(f[0], 1 << 62) <= T]
+                b = proj(qi["ok"]["fractions"])
+                if a != b:
+                    d = next((x, y) for x, y in zip(a + [None], b + [None]) if x != y)
+                    out.violation(f"results for events at or before instant {T} change when later transactions are added: "
+                                  f"with continuation {d[0]}, prefix alone {d[1]}", pair, tags={"prefix-changed"})
+                    hit = True
+                    break
+            if hit:
+                break
     # to-date vs truncated spreadsheet
     jobs = [(base["cases"][idx], D) for idx, D in day_jobs]
     to_impl = core.pool_map(_impl_to, jobs, init=core.impl_env_setup)
